@@ -74,6 +74,7 @@ func init() {
 	registerFamily("C12", C12)
 	registerFamily("C14", C14)
 	registerFamily("C07", C07)
+	registerFamily("C05", C05)
 }
 
 var _ = engine.VerifDir
